@@ -688,7 +688,17 @@ func Simplify(expression b6.Expression, functions SymbolArgCounts) b6.Expression
 
 func simplifyCall(expression b6.Expression, functions SymbolArgCounts) b6.Expression {
 	call := expression.AnyExpression.(b6.CallExpression)
-	call.Function = Simplify(call.Function, functions)
+	function := Simplify(call.Function, functions)
+	if symbol, ok := function.AnyExpression.(b6.SymbolExpression); ok {
+		// A symbol that's called names a global function, so simplifying
+		// the function to, eg, a lambda's argument would change its meaning.
+		if _, ok := call.Function.AnyExpression.(b6.SymbolExpression); !ok {
+			if _, ok := functions.ArgCount(symbol); !ok {
+				function = call.Function
+			}
+		}
+	}
+	call.Function = function
 
 	for i, arg := range call.Args {
 		call.Args[i] = Simplify(arg, functions)
